@@ -14,6 +14,7 @@ import (
 	"crypto/ed25519"
 	"encoding/json"
 	"fmt"
+	"os"
 	"time"
 
 	"github.com/matrix-org/gomatrixserverlib/spec"
@@ -31,7 +32,7 @@ type c18State struct {
 }
 
 func c18NewState(ctx *vfCtx, prefix string) *c18State {
-	return &c18State{ctx: ctx, prefix: prefix, seen: map[string]bool{}}
+	return &c18State{ctx: ctx, prefix: prefix, seen: map[string]bool{}, quiet: os.Getenv("VF_C18_DISCOVER") != ""}
 }
 
 // call runs exactly one library entry point under vfCatch. The signature is
@@ -50,7 +51,7 @@ func (s *c18State) call(op string, f func()) (panicked bool) {
 	switch {
 	case s.quiet:
 		s.ctx.findings = s.ctx.findings[:n]
-		s.ctx.Class("unjudged-panic/" + stem)
+		s.ctx.Class("unjudged-panic/" + s.prefix + "/" + stem + "/via/" + op)
 	case s.seen[fd.Sig]:
 		s.ctx.findings = s.ctx.findings[:n]
 		s.ctx.Class("again/" + stem)
